@@ -456,6 +456,28 @@ func (e *exprEnv) importedPkg(name string) *types.Package {
 	if e.pkg == nil {
 		return nil
 	}
+	// import aliases of the package's files first
+	if pk := e.f.t.P.ByPath[e.pkg.Path()]; pk != nil {
+		for _, file := range pk.Syntax {
+			for _, is := range file.Imports {
+				path, err := strconv.Unquote(is.Path.Value)
+				if err != nil {
+					continue
+				}
+				alias := ""
+				if is.Name != nil {
+					alias = is.Name.Name
+				}
+				if alias == name {
+					for _, imp := range e.pkg.Imports() {
+						if imp.Path() == path {
+							return imp
+						}
+					}
+				}
+			}
+		}
+	}
 	for _, imp := range e.pkg.Imports() {
 		if imp.Name() == name {
 			return imp
@@ -759,6 +781,18 @@ func (e *exprEnv) call(n *ast.CallExpr) (cval, error) {
 				return cval{}, err
 			}
 			return cval{term: fmt.Sprintf("(and (< 0 %s) (<= %s %s))", v.term, v.term, e.st.alloc), typ: boolT}, nil
+		case "kind":
+			v, err := e.expr(n.Args[0])
+			if err != nil {
+				return cval{}, err
+			}
+			return cval{term: fmt.Sprintf("(i_tag %s)", v.term), typ: intT}, nil
+		case "kindof":
+			T, err := e.resolveType(n.Args[0])
+			if err != nil {
+				return cval{}, err
+			}
+			return cval{term: B.typeID(T), typ: intT}, nil
 		case "istype":
 			v, err := e.expr(n.Args[0])
 			if err != nil {
